@@ -424,7 +424,7 @@ pub fn resolve(outdir: &std::path::Path) {
         tok.to_string()
     };
     for line in text.lines() {
-        if let Some(rest) = line.strip_prefix("ok ") {
+        if let Some(rest) = line.strip_prefix("ok ").filter(|r| r.contains(" rem=")) {
             // ok Kind toks rem=n [| re=..]
             let (head, re) = match rest.find(" | re=") { Some(i) => (&rest[..i], &rest[i..]), None => (rest, "") };
             let mut parts = head.splitn(2, ' ');
